@@ -1,12 +1,17 @@
 package main
 
 import (
+	"bytes"
 	"fmt"
 	"io"
 
 	"verif/simrt"
 	"zombiezen.com/go/commonmark"
 )
+
+type matcherFunc func(string) bool
+
+func (f matcherFunc) MatchReference(l string) bool { return f(l) }
 
 // stepBudget is B(n) of DESIGN §2.4.
 func stepBudget(n int) uint64 {
@@ -73,10 +78,40 @@ func checkC04(s *Scenario) (fail *Failure, obs *totObs) {
 			obs.LimitHit = true
 		}
 
-		for ti, tree := range [][]*commonmark.RootBlock{blocks, sobs.Blocks} {
+		// block-by-block parsing followed by inline rewriting under other
+		// ReferenceMatcher configurations: nil (the zero InlineParser), and
+		// caller-supplied matchers that answer always / never / by hash
+		var alt [][]*commonmark.RootBlock
+		for mi, m := range []commonmark.ReferenceMatcher{nil, matcherFunc(func(string) bool { return true }), matcherFunc(func(l string) bool { return hashString(l)%2 == 0 })} {
+			if (len(doc)+mi)%3 != 0 && !tierThorough {
+				continue // one of the three per document in the quick tier
+			}
+			begin("rewrite-matcher")
+			var bs []*commonmark.RootBlock
+			bp := commonmark.NewBlockParser(bytes.NewReader(doc))
+			for {
+				b, err := bp.NextBlock()
+				if err != nil {
+					break
+				}
+				bs = append(bs, b)
+			}
+			ip := &commonmark.InlineParser{ReferenceMatcher: m}
+			for _, b := range bs {
+				ip.Rewrite(b)
+			}
+			end()
+			alt = append(alt, bs)
+		}
+		trees := [][]*commonmark.RootBlock{blocks, sobs.Blocks}
+		trees = append(trees, alt...)
+		for ti, tree := range trees {
 			rrefs := refs
 			if ti == 1 {
 				rrefs = sobs.Refs
+			}
+			if ti >= 2 && ti%2 == 0 {
+				rrefs = nil // a renderer without a reference map
 			}
 			for ci := range s.Renders {
 				begin("render")
